@@ -969,12 +969,14 @@ class _GenerateRenderMethod:
                 s.visitDefOrBase(node)
 
             def visitBlockTag(s, node):
-                s.visitDefOrBase(node)
+                # an anonymous block renders in place, as part of
+                # body(), where it sees the arguments of body()
+                if not node.is_anonymous:
+                    s.visitDefOrBase(node)
 
             def visitDefOrBase(s, node):
                 self.write_inline_def(node, callable_identifiers, nested=False)
-                if not node.is_anonymous:
-                    export.append(node.funcname)
+                export.append(node.funcname)
                 # remove defs that are within the <%call> from the
                 # "closuredefs" defined in the body, so they dont render twice
                 if node.funcname in body_identifiers.closuredefs:
